@@ -18,8 +18,15 @@ fn hex(b: &[u8]) -> String {
 
 mod ops;
 
+thread_local! {
+    static LAST_PANIC_LOCATION: std::cell::RefCell<String> = std::cell::RefCell::new(String::new());
+}
+
 fn main() {
-    panic::set_hook(Box::new(|_| {}));
+    panic::set_hook(Box::new(|info| {
+        let loc = info.location().map(|l| format!("{}:{}", l.file(), l.line())).unwrap_or_default();
+        LAST_PANIC_LOCATION.with(|c| *c.borrow_mut() = loc);
+    }));
     let stdin = io::stdin();
     let stdout = io::stdout();
     for line in stdin.lock().lines() {
@@ -36,7 +43,8 @@ fn main() {
                 } else {
                     "?".to_string()
                 };
-                format!("panic {}", msg.replace('\n', " "))
+                let loc = LAST_PANIC_LOCATION.with(|c| c.borrow().clone());
+                format!("panic {} [at {}]", msg.replace('\n', " "), loc)
             }
         };
         let mut o = stdout.lock();
